@@ -534,7 +534,9 @@ class Unit:
                 continue
             ls = spec.loops.get(n["ord"])
             if ls is None:
-                continue
+                # a loop without invariants cannot be verified: whatever Verus would report after it
+                # is an artefact of the missing contract, not a property violation
+                raise Undecided(f"loop #{n['ord']} of {key} ({src.rel}:{src.line_of(n['span'][0])}) has no contract in specs/: the function is outside what this unit can decide")
             pos = n["body_open"]
             lt = []
             if ls.get("iter"):
@@ -809,16 +811,24 @@ class Unit:
             blk = [b for b in nodes if b["k"] == "block" and b["id"] == n["block"]][0]
             st = [x for x in nodes if x["k"] == "stmt" and x["block"] == blk["id"]]
             last = st[-1]
+            # the guard is dropped at the end of its block and at every early exit from it
+            for x in nodes:
+                if x["k"] in ("continue", "break", "return") and n["span"][1] <= x["span"][0] and x["span"][1] <= blk["close"]:
+                    for y in nodes:
+                        if y["k"] == "await" and x["span"][0] <= y["span"][0] < x["span"][1]:
+                            raise Undecided(f"E7: guard of {key} is alive across an await in an exit expression")
+                    eds.append((x["span"][0], x["span"][0], "{ proof { ghost_unlock(w); } } ", None))
             if last["kind"] == "expr":
                 # tail expression evaluated with the guard alive: it must not contain an await
                 for x in nodes:
                     if x["k"] == "await" and last["span"][0] <= x["span"][0] < last["span"][1]:
                         raise Undecided(f"E7: guard of {key} is alive across an await in a tail expression")
-                pos = last["span"][0]
+                if not any(x["k"] in ("continue", "break", "return") and x["span"][0] == last["span"][0] for x in nodes):
+                    eds.append((last["span"][0], last["span"][0], " proof { ghost_unlock(w); } ", None))
             else:
-                pos = blk["close"]
-            eds.append((pos, pos, " proof { ghost_unlock(w); } ", None))
-            self._log("E7", src, pos, "", "ghost_unlock(w)")
+                pos = blk["close"] - 1
+                eds.append((pos, pos, " proof { ghost_unlock(w); } ", None))
+            self._log("E7", src, n["span"][0], "", "ghost_unlock(w) at the end of the guard's block and before early exits")
         return eds
 
     PANIC_MCALLS = {"unwrap", "expect"}
